@@ -17,11 +17,23 @@ E == Rec[l]
 
 SameMultiset(a, b) == Len(a) = Len(b) /\ \A n \in 1..Len(a) : CountIn(a, a[n]) = CountIn(b, a[n])
 
+\* ---- internal events (recorded by the cfg-gated hooks; each is self-contained; absence is never a violation) ----
+InternalOK(ie, e, ast) ==
+  CASE ie.ev = "slice" -> LET ix == SliceIndices(ie.len, ie.start, ie.end, ie.step) IN ie.emitted = ix /\ ie.iters = Len(ix)
+    [] ie.ev = "cmp"   -> ie.result = Compare(ie.op, ie.l, ie.r)
+    [] ie.ev = "seg"   -> /\ ie.inside /\ ie.k >= 1 /\ ie.k <= Len(ast)
+                          /\ (ie.out = ApplySeg(ast[ie.k], e.doc, ie.inp) \/ ie.out = ApplySegSM(ast[ie.k], e.doc, ie.inp))
+    [] OTHER -> TRUE
+InternalFailures(e, ast) ==
+  IF "internal" \notin DOMAIN e THEN <<>>
+  ELSE LET bad == FilterSeq(e.internal, LAMBDA ie : ~InternalOK(ie, e, ast)) IN [n \in 1..Len(bad) |-> bad[n].ev]
+
+NoJ == [ok |-> TRUE, verdict |-> "", aspects |-> <<>>, sm |-> FALSE, expect |-> <<>>, expect_paths |-> <<>>]
 Judge(e) ==
   LET v == Verdict(e.q) IN
-  IF v = "unscoped" THEN [ok |-> TRUE, verdict |-> v, aspect |-> "", sm |-> FALSE, expect |-> <<>>, expect_paths |-> <<>>]
-  ELSE IF v = "invalid" THEN [ok |-> e.outcome = "err", verdict |-> v, aspect |-> "outcome", sm |-> FALSE, expect |-> <<>>, expect_paths |-> <<>>]
-  ELSE IF e.outcome # "ok" THEN [ok |-> FALSE, verdict |-> v, aspect |-> "outcome", sm |-> FALSE, expect |-> <<>>, expect_paths |-> <<>>]
+  IF v = "unscoped" THEN [NoJ EXCEPT !.verdict = v]
+  ELSE IF v = "invalid" THEN [NoJ EXCEPT !.verdict = v, !.ok = (e.outcome = "err"), !.aspects = IF e.outcome = "err" THEN <<>> ELSE <<"outcome">>]
+  ELSE IF e.outcome # "ok" THEN [NoJ EXCEPT !.verdict = v, !.ok = FALSE, !.aspects = <<"outcome">>]
   ELSE
     LET ast == ParseAst(e.q)
         exp == Denote(ast, e.doc)
@@ -29,8 +41,10 @@ Judge(e) ==
         orderOK == e.inside /\ e.res = exp
         ep == [n \in 1..Len(e.res) |-> NormalizedPath(e.res[n])]        \* the path each REPORTED node must carry
         pathsOK == Len(e.paths) = Len(e.res) /\ \A n \in 1..Len(e.res) : e.paths[n] = ep[n]
-    IN [ok |-> nodesOK /\ orderOK /\ pathsOK, verdict |-> v,
-        aspect |-> IF ~nodesOK THEN "nodes" ELSE IF ~orderOK THEN "order" ELSE "paths",
+        intl == InternalFailures(e, ast)
+        asp == (IF nodesOK THEN <<>> ELSE <<"nodes">>) \o (IF orderOK THEN <<>> ELSE <<"order">>)
+               \o (IF pathsOK THEN <<>> ELSE <<"paths">>) \o intl
+    IN [ok |-> asp = <<>>, verdict |-> v, aspects |-> asp,
         sm |-> e.inside /\ e.res = DenoteSM(ast, e.doc), expect |-> exp, expect_paths |-> ep]
 
 Step == /\ l <= Len(Rec)
